@@ -94,6 +94,7 @@ class _FakeMixin:
 
     async def get_available_locations(self, service=None):
         WORLD.ev("use", self.sfv_name, self.sfv_obj)
+        WORLD.op("use", self.sfv_name)
         return {}
 
     async def copy_local_to_remote(self, *a, **k): raise NotImplementedError
@@ -191,6 +192,14 @@ class TraceDict(dict):
         WORLD.op(self.label + ".pop", k)
         return super().pop(k, *d)
 
+    def __iter__(self):          # forces dict(self) through keys(), so that snapshots are visible
+        return super().__iter__()
+
+    def keys(self):
+        if self.label == "deployments_map":
+            WORLD.op("deployments_map.keys", len(self))
+        return super().keys()
+
 
 def make_manager(deployments: dict):
     """deployments: name -> {"kind": base|wrap, "wraps": name|None, "lazy": bool}"""
@@ -240,6 +249,7 @@ def run_case(case: dict) -> dict:
                 if c is None:
                     rec["outcome"] = "no-connector"
                     rec["end"] = world.ev("req-end:" + kind, name or "*")
+                    world.op("req-end", "no-connector")
                     return
                 await c.get_available_locations()
             rec["outcome"] = "ok"
